@@ -121,7 +121,138 @@ def bounded_export(tier, seed):
     return guarded(p, _check_export, tier, seed)
 
 
-BOUNDED = [bounded_export]
+_BANK = "c19_bank"
+_BANK_SRC = '''
+class Account:
+    def __init__(self, balance):
+        self.balance = balance
+        self.log = []
+
+    def deposit(self, amount):
+        self.balance += amount
+        self.log.append(amount)
+        return self.balance
+'''
+
+
+def _suite_templates(alias):
+    """Test cases whose statements coincide once unused bindings are stripped but whose assertions differ, next to ordinary ones."""
+    import pynguin.assertion.assertion as ass
+    O, L = ass.ObjectAssertion, ass.CollectionLengthAssertion
+    return {
+        "used-result": ([("var_0 = 10", "var_0", int), (f"var_1 = {alias}.Account(var_0)", "var_1", None), ("var_2 = 5", "var_2", int),
+                         ("var_3 = var_1.deposit(var_2)", "var_3", int)],
+                        {1: [O("var_1.balance", 10)], 3: [O("var_3", 15), O("var_1.balance", 15)]}),
+        "unused-result-a": ([("var_0 = 7", "var_0", int), (f"var_1 = {alias}.Account(var_0)", "var_1", None),
+                             ("var_2 = var_1.deposit(var_0)", "var_2", int)], {2: [O("var_1.balance", 14)]}),
+        "unused-result-b": ([("var_0 = 7", "var_0", int), (f"var_1 = {alias}.Account(var_0)", "var_1", None),
+                             ("var_5 = var_1.deposit(var_0)", "var_5", int)], {2: [O("var_1.balance", 14), L("var_1.log", 1)]}),
+        "unused-result-c": ([("var_0 = 7", "var_0", int), (f"var_1 = {alias}.Account(var_0)", "var_1", None),
+                             ("var_9 = var_1.deposit(var_0)", "var_9", int)], {1: [L("var_1.log", 0)]}),
+        "asserted-result": ([("var_0 = 7", "var_0", int), (f"var_1 = {alias}.Account(var_0)", "var_1", None),
+                             ("var_4 = var_1.deposit(var_0)", "var_4", int)], {2: [O("var_4", 14)]}),
+        "no-assertions": ([("var_0 = 7", "var_0", int), (f"var_1 = {alias}.Account(var_0)", "var_1", None),
+                           ("var_6 = var_1.deposit(var_0)", "var_6", int)], {}),
+    }
+
+
+def _check_suite_export(part: Part, tier, seed):
+    import ast as _ast, shutil, sys, tempfile  # noqa: E401
+    from pathlib import Path
+    import libcst as cst
+    import pynguin.ga.postprocess as pp
+    import pynguin.ga.testcasechromosome as tcc
+    import pynguin.ga.testsuitechromosome as tsc
+    import pynguin.testcase.testcase as tcm
+    from pynguin.assertion.assertion_to_ast import assertion_to_cst
+    from pynguin.testcase.export import TestSuiteWriter
+    from pynguin.utils.naming import get_module_alias
+    alias = get_module_alias(_BANK)
+    tmp = Path(tempfile.mkdtemp(prefix="c19_"))
+    (tmp / f"{_BANK}.py").write_text(_BANK_SRC)
+    sys.path.insert(0, str(tmp))
+    norm = lambda code: _ast.unparse(_ast.parse(code)).strip()   # noqa: E731
+    try:
+        templates = _suite_templates(alias)
+        sizes = (1, 2, 3) if tier == "thorough" else (1, 2)
+        k = 0
+        for r in sizes:
+            for combo in itertools.permutations(templates, r):
+                for postprocess in (False, True):
+                    k += 1
+                    part.case()
+                    suite = tsc.TestSuiteChromosome()
+                    for name in combo:
+                        stmts, asserts = templates[name]
+                        t = tcm.TestCase()
+                        for i, (code, var, typ) in enumerate(stmts):
+                            t.add_statement(tcm.Statement(node=cst.parse_module(code + "\n").body[0], bound_variable=var, bound_type=typ,
+                                                          assertions=list(asserts.get(i, []))))
+                        suite.add_test_case_chromosome(tcc.TestCaseChromosome(t))
+                    if postprocess:
+                        suite.accept(pp.AssertionMinimization())
+                        suite.accept(pp.TestCasePostProcessor([pp.UnusedStatementsTestCaseVisitor()]))
+                    # what is attached to the test cases when they are handed to the writer (per statement source)
+                    attached = []
+                    for ch in suite.test_case_chromosomes:
+                        attached.append([(norm(cst.Module(body=[s.node]).code).split("=", 1)[-1].strip(),
+                                          [norm(cst.Module(body=[assertion_to_cst(a)]).code) for a in s.assertions])
+                                         for s in ch.test_case.statements()])
+                    out = TestSuiteWriter().write(suite, _BANK, tmp / f"out{k}", project_path=str(tmp), format_with_black=False)
+                    funcs = []
+                    for node in _ast.parse(out.read_text(encoding="utf-8")).body:
+                        if isinstance(node, _ast.FunctionDef) and node.name.startswith("test_"):
+                            layout = []
+                            for ch in node.body:
+                                if isinstance(ch, _ast.Assert) and layout:
+                                    layout[-1][1].append(_ast.unparse(ch).strip())
+                                else:
+                                    layout.append((_ast.unparse(ch).strip(), []))
+                            funcs.append(layout)
+                    for idx, want in enumerate(attached):
+                        wanted = [(v, a) for v, a in want if a]
+                        best = None
+                        for layout in funcs:
+                            missing = []
+                            pos = 0
+                            for rhs, asserts in wanted:
+                                # the statement that evaluates the same expression, in order
+                                var = rhs
+                                hit = next((j for j in range(pos, len(layout)) if layout[j][0].split("=", 1)[-1].strip() == rhs), None)
+                                if hit is None:
+                                    missing += [(var, a) for a in asserts]
+                                    continue
+                                pos = hit
+                                missing += [(var, a) for a in asserts if a not in layout[hit][1]]
+                            if best is None or len(missing) < len(best):
+                                best = missing
+                        if best is None:
+                            best = [(v, a) for v, al in wanted for a in al]
+                        if best:
+                            part.violation("every assertion attached to a test case appears, for the same statement, in an exported test function",
+                                           "suite-export-drops-assertion:" + ("after-postprocessing" if postprocess else "plain"),
+                                           {"suite": list(combo), "postprocessing": postprocess, "test_case_index": idx,
+                                            "assertions_in_no_exported_function": best, "exported_functions": len(funcs)},
+                                           target=f"{EX}:TestSuiteWriter.write")
+    finally:
+        sys.path.remove(str(tmp))
+        sys.modules.pop(_BANK, None)
+        shutil.rmtree(tmp, ignore_errors=True)
+
+
+def bounded_suite_export(tier, seed):
+    p = Part("C19", "suite-export", [f"{EX}:TestSuiteWriter.write", f"{TC}:TestCase.remove_unused_variables",
+                                     "pynguin.ga.postprocess:AssertionMinimization", "pynguin.ga.postprocess:UnusedStatementsTestCaseVisitor"],
+             scope="the real TestSuiteWriter.write (with and without AssertionMinimization + UnusedStatementsTestCaseVisitor before it) on "
+                   "every ordered selection of <= 2 (thorough 3) of 6 test cases over a small class: results used later, results "
+                   "never read (three of them identical once the unused binding is stripped, with different assertions), a result "
+                   "that is only asserted, a test case without assertions; the written file is parsed and every attached assertion "
+                   "must follow the statement it belongs to in some exported function",
+             bound="suites of <= 2 (3) test cases out of 6 templates")
+    return guarded(p, _check_suite_export, tier, seed)
+
+
+BOUNDED = [bounded_export, bounded_suite_export]
 META = {"rule": "obligations: one per contract clause/site of TestCase.remove_unused_variables; bounded part: one case "
                 "per enumerated (test case, exception pattern); non-trivial = at least one renderable assertion"}
 
